@@ -19,7 +19,8 @@ def replay_tokens(states, extra):
     repo.activate()
     from mitxgraders.helpers.calc.expressions import evaluator
     rng = random.Random(extra['seed'])
-    sc = X.scope()
+    empty = extra.get('scope') == 'empty'
+    sc = ({}, {}, {}) if empty else X.scope()
     n = 0
     bad, fine = [], 0
     classes = {}
@@ -30,14 +31,16 @@ def replay_tokens(states, extra):
             continue
         n += 1
         ids, out = c['ids'], st['out']
-        text = X.render_tab(ids)
-        if n % 3 == 0:
+        text = X.render_tab(ids, empty)
+        if empty:
+            sc = ({}, {}, {})     # literally empty dictionaries, new ones every time
+        elif n % 3 == 0:
             sc = X.scope()        # new function objects (old ones are freed: their ids get reused)
         obs = X.observe(text, evaluator, sc)
         classes[out['c']] = classes.get(out['c'], 0) + 1
         probs = X.compare(out, obs)
         # rendering independence: spaces anywhere, tabs / newlines between tokens, number formats
-        text2 = X.render_variant(ids, rng)
+        text2 = X.render_variant(ids, rng, empty)
         obs2 = X.observe(text2, evaluator, sc)
         if not X.same_observation(obs, obs2) and text2.strip():
             probs.append(('render', 'rendering %r gives %s, rendering %r gives %s' % (text, obs['c'], text2, obs2['c'])))
@@ -58,12 +61,18 @@ CHAR_VARS = {'x': 5, 'x1': 7, 'x_1': 11, "x'": 13, 'x_{1}': 17, 'x^{1}': 19, 'x_
              'xx': 31, 'x_': 37, 'x11': 41, "x''": 43, "x1'": 47}
 
 
+# real characters for the abstract symbols of the "foreign" alphabet of MC_ExprChars
+FOREIGN = {'FD': ['\uff11', '\u0663', '\u096d', '\u0e52', '\U0001d7d0'],           # digits (category Nd) of other scripts
+           'FL': ['\u03c0', '\xe9', '\u0445', '\u212f', '\xb5', '\u0131'],        # pi, e-acute, Cyrillic ha, script e, micro, dotless i
+           'FS': ['\xd7', '\u2212', '\xf7', '\xb7', '$', '#', '!', '&', '~', '\\', '=', ';', '"', '\xb2', '\u221a'],}
+
+
 def char_text(chars, rng=None):
     if rng is None:
-        return ''.join('\t' if ch == 'TAB' else ch for ch in chars)
+        return ''.join('\t' if ch == 'TAB' else FOREIGN[ch][0] if ch in FOREIGN else ch for ch in chars)
     out = []
     for ch in chars:
-        out.append(rng.choice(['\t', '\n', '\r', '\t\n']) if ch == 'TAB' else ch)
+        out.append(rng.choice(['\t', '\n', '\r', '\t\n']) if ch == 'TAB' else rng.choice(FOREIGN[ch]) if ch in FOREIGN else ch)
         if rng.random() < 0.2:
             out.append(' ')
     return ''.join(out)
@@ -246,7 +255,7 @@ def run(ctx):
     for k in cl:
         ctx.nontrivial.add(('ops-class', k))
     ctx.extra['ops_outcome_classes'] = cl
-    for which in ('num', 'name'):
+    for which in ('num', 'name', 'foreign'):
         d = os.path.join(ctx.scratch, 'chars_' + which)
         ctx.tlc('expr/MC_ExprChars.tla', 'expr/MC_ExprChars_%s_%s.cfg' % (which, ctx.tier), dump=d, timeout=6000)
         res = dump.parallel(d + '.dump', 'engine.adapters.c03', 'replay_chars', extra={'seed': ctx.seed})
@@ -289,6 +298,23 @@ def run(ctx):
     if fine:
         ctx.note_drift('%d token strings: fine-grained error class differs from the model (same coarse class)' % fine)
     ctx.extra['token_outcome_classes'] = classes
+    # the same token strings in the EMPTY scope (nothing supplied -> nothing resolves), names spelled as the library's defaults
+    d = os.path.join(ctx.scratch, 'tokens_empty')
+    ctx.tlc('expr/MC_ExprTokens.tla', 'expr/MC_ExprTokens_empty_%s.cfg' % ctx.tier, dump=d, timeout=6000)
+    res = dump.parallel(d + '.dump', 'engine.adapters.c03', 'replay_tokens', extra={'seed': ctx.seed, 'scope': 'empty'})
+    os.remove(d + '.dump')
+    eclasses = {}
+    for r in res:
+        ctx.count(r['n'])
+        ctx.traces_validated += r['n']
+        for k, v in r['classes'].items():
+            eclasses[k] = eclasses.get(k, 0) + v
+        for b in r['bad']:
+            ctx.violation({'tokens': b['ids'], 'text': b['text'], 'aspect': b['aspect'], 'spec_class': b['spec'], 'scope': 'empty'},
+                          'evaluator(%r, {}, {}, {}): %s' % (b['text'], b['what']))
+    for k in eclasses:
+        ctx.nontrivial.add(('token-class-empty-scope', k))
+    ctx.extra['token_outcome_classes_empty_scope'] = eclasses
     # code -> spec: long random derivations and corruptions, validated by TLC
     nrec = 4000 if ctx.quick else 60000
     per = 250
@@ -313,5 +339,6 @@ def run(ctx):
 def replay(ctx, rec):
     from engine import repo
     repo.activate()
-    print(X.observe(rec['signature']['text']))
+    sig = rec['signature']
+    print(X.observe(sig['text'], None, ({}, {}, {}) if sig.get('scope') == 'empty' else None))
     return False
